@@ -5,8 +5,8 @@
    come from the tables; apply_op D (R,t) k = R k + t*(D/12); red D = componentwise mod D;
    img D g off x = red (g (x + off) - off)   [what expandPosition computes for sgoffset = off]. *)
 From Coq Require Import ZArith List Bool Permutation.
-From DS Require Import Base.ZMat Base.SGDefs Model.GroupCheck Model.C02_Orbit Model.C02_Eps Gen.SGTables.
-From DS Require Import Proofs.C02_Action Proofs.C02_Expand Proofs.C02_OrbitStab Proofs.C02_EpsSound Proofs.C02_All.
+From DS Require Import Base.ZMat Base.SGDefs Model.GroupCheck Model.C02_Orbit Model.C02_Eps Model.C02_Gen Gen.SGTables.
+From DS Require Import Proofs.C02_Action Proofs.C02_Expand Proofs.C02_OrbitStab Proofs.C02_EpsSound Proofs.C02_NearSpecial Proofs.C02_GenSound Proofs.C02_GenCheck Proofs.C02_Metric Proofs.C02_All.
 Open Scope Z_scope.
 
 (* For ANY operation list that is a group modulo lattice translations (the C03 predicate), any modulus D > 0
@@ -69,13 +69,131 @@ Theorem C02_eps_orbit_all_settings : forall s D off x, In s all_settings -> 0 < 
 Proof. exact expand_eps_spec_tabulated. Qed.
 Print Assumptions C02_eps_orbit_all_settings.
 
-(* PARTIAL: sites within tolerance of a special position (images closer than 2e-5 but not equal) are outside
-   the separation hypothesis; there the model provably differs from the exact expansion of the given site
-   (it merges, Example eps_merges_within_tolerance) and the statement "the result is the orbit structure of the
-   nearby special position", as well as the snap step of GeneratorSite, is established by the correspondence
-   check (model = implementation) plus the exact-fraction oracle only. *)
-Theorem C02_near_special_partial :
-  let G := (I3, v0) :: (M3 (-1) 0 0 0 (-1) 0 0 0 (-1), v0) :: nil in
-  snd (expand_eps 120000000 G v0 (V3 12 0 0)) = 1%nat /\ snd (expand_exact 120000000 G v0 (V3 12 0 0)) = 2%nat.
-Proof. exact eps_merges_within_tolerance. Qed.
-Print Assumptions C02_near_special_partial.
+(* ---- sites within tolerance of a special position (replaces the former C02_near_special_partial) ----
+   x is "within tolerance of x0" when images of x that belong to one image of x0 are within eps = 1e-5 of each
+   other (within_tol) and images that belong to different images of x0 are farther apart than 2e-5 (between_far).
+   Then the tolerance algorithm, run on x, returns the orbit STRUCTURE of x0: the same attribution lists (fibres of
+   x0, a permutation of G), the same multiplicity with multiplicity * |site symmetry of x0| = |G|, every position
+   represented by the image of x under the first operation attributed to it, the input site first.
+   (The model follows the dictionary of shared list objects literally, including the aliasing of a new bucket
+   key to the list of the nearest position and the unreachable fresh lists.) *)
+Theorem C02_eps_near_special : forall D G off x x0, IsGroup G -> 0 < D -> (12 | D) ->
+  within_tol D G off x x0 -> between_far D G off x x0 ->
+  let '(pos0, ops0, m0) := expand_exact D G off x0 in
+  expand_eps D G off x = (map (rep_of D off x) ops0, ops0, m0) /\
+  hd_error (map (rep_of D off x) ops0) = Some (red D x) /\
+  (forall l, In l ops0 -> exists g, In g l /\ rep_of D off x l = img D g off x) /\
+  attribution_ok D G off x0 pos0 ops0 /\ Permutation (concat ops0) G /\
+  (m0 * List.length (stab D G off x0))%nat = List.length G.
+Proof. exact near_special_spec. Qed.
+Print Assumptions C02_eps_near_special.
+
+Theorem C02_eps_near_special_all_settings : forall s D off x x0, In s all_settings -> 0 < D -> (12 | D) ->
+  within_tol D (sg_ops s) off x x0 -> between_far D (sg_ops s) off x x0 ->
+  let G := sg_ops s in
+  let '(pos0, ops0, m0) := expand_exact D G off x0 in
+  expand_eps D G off x = (map (rep_of D off x) ops0, ops0, m0) /\
+  hd_error (map (rep_of D off x) ops0) = Some (red D x) /\
+  (forall l, In l ops0 -> exists g, In g l /\ rep_of D off x l = img D g off x) /\
+  attribution_ok D G off x0 pos0 ops0 /\ Permutation (concat ops0) G /\
+  (m0 * List.length (stab D G off x0))%nat = List.length G.
+Proof. exact near_special_spec_tabulated. Qed.
+Print Assumptions C02_eps_near_special_all_settings.
+
+(* without any group hypothesis: the algorithm on x returns exactly the lists and multiplicity of the exact
+   expansion of x0 *)
+Theorem C02_eps_near_special_any_list : forall D G off x x0, 0 < D ->
+  within_tol D G off x x0 -> between_far D G off x x0 ->
+  let '(pos0, ops0, m0) := expand_exact D G off x0 in
+  expand_eps D G off x = (map (rep_of D off x) ops0, ops0, m0).
+Proof. exact expand_eps_near_special. Qed.
+Print Assumptions C02_eps_near_special_any_list.
+
+(* ---- GeneratorSite.__init__, position part (Model/C02_Gen.v: _findInvariants, dxyz - dxyz.round() summed over
+   the invariants, the `len(invariants) > 1` guard, `numpy.any(dxyz != 0)`, zeroing below eps, re-expansion);
+   the mean divides by n = len(invariants), so the adjusted site lives on the grid D n ---- *)
+
+(* an exact (separated) site is returned unchanged, with the exact expansion and invariants = its site symmetry *)
+Theorem C02_snap_identity_on_exact_sites : forall D G off x, IsGroup G -> 0 < D -> (12 | D) -> separated D G off x ->
+  generator_site D G off x =
+  let '(pos, ops, m) := expand_exact D G off x in Some (GSite D x off pos ops m (stab D G off x)).
+Proof. exact snap_identity_on_exact_sites. Qed.
+Print Assumptions C02_snap_identity_on_exact_sites.
+
+(* a site within tolerance of x0 (within_tol, between_far), displaced by less than half a cell under the site
+   symmetry S of x0 (small_v), |S| > 1, is moved to
+       snapped / (D n) = x0 + (1/n) sum_{h in S} R_h (x - x0)          (n = |S|)
+   i.e. onto the special position of x0 (every operation of S fixes it), and - if the moved site is separated and has
+   no nonzero coordinate below eps - the reported expansion is the exact expansion of the moved site and the
+   reported invariants are its site symmetry. *)
+Theorem C02_snap_fixes_site : forall D G off x x0, IsGroup G -> 0 < D -> (12 | D) ->
+  within_tol D G off x x0 -> between_far D G off x x0 ->
+  let S := stab D G off x0 in let n := Z.of_nat (List.length S) in
+  (forall h, In h S -> small_v D (vsub (mvec (fst h) (vsub x x0)) (vsub x x0))) ->
+  (1 < List.length S)%nat ->
+  let xs := snapped D G off x x0 in
+  xs <> vscale n x -> zero_small (D * n) xs = xs -> separated (D * n) G (vscale n off) xs ->
+  generator_site D G off x =
+    (let '(pos, ops, m) := expand_exact (D * n) G (vscale n off) xs in
+     Some (GSite (D * n) xs (vscale n off) pos ops m (stab (D * n) G (vscale n off) xs)))
+  /\ incl S (stab (D * n) G (vscale n off) xs).
+Proof. exact snap_fixes_site. Qed.
+Print Assumptions C02_snap_fixes_site.
+
+(* the same with every hypothesis decided by computation (snap_hyps_b), for all tabulated settings *)
+Theorem C02_snap_fixes_site_all_settings : forall s D off x x0, In s all_settings -> 0 < D -> (12 | D) ->
+  snap_hyps_b D (sg_ops s) off x x0 = true ->
+  let G := sg_ops s in
+  let n := Z.of_nat (List.length (stab D G off x0)) in
+  let xs := snapped_site D G off x x0 in
+  generator_site D G off x =
+    (let '(pos, ops, m) := expand_exact (D * n) G (vscale n off) xs in
+     Some (GSite (D * n) xs (vscale n off) pos ops m (stab (D * n) G (vscale n off) xs)))
+  /\ incl (stab D G off x0) (stab (D * n) G (vscale n off) xs).
+Proof. exact snap_fixes_tabulated. Qed.
+Print Assumptions C02_snap_fixes_site_all_settings.
+
+(* the reported invariants are exactly the site symmetry of x0 unless the moved site falls onto a position that is
+   more special than x0 *)
+Theorem C02_snapped_invariants_are_stab_x0 : forall D G off x x0, IsGroup G -> 0 < D -> (12 | D) ->
+  within_tol D G off x x0 -> between_far D G off x x0 ->
+  let S := stab D G off x0 in let n := Z.of_nat (List.length S) in let xs := snapped D G off x x0 in
+  (forall h, In h S -> small_v D (vsub (mvec (fst h) (vsub x x0)) (vsub x x0))) ->
+  (1 < List.length S)%nat ->
+  (forall g, In g G -> img D g off x0 <> red D x0 -> img (D * n) g (vscale n off) xs <> red (D * n) xs) ->
+  stab (D * n) G (vscale n off) xs = S.
+Proof. exact snapped_invariants_are_stab_x0. Qed.
+Print Assumptions C02_snapped_invariants_are_stab_x0.
+
+(* a site that already lies on the special position of x0 (displaced along its free directions only) is kept;
+   the reported structure is that of x0 carried by the images of x, invariants = site symmetry of x0 *)
+Theorem C02_snap_keeps_invariant_site : forall D G off x x0, IsGroup G -> 0 < D -> (12 | D) ->
+  within_tol D G off x x0 -> between_far D G off x x0 ->
+  let S := stab D G off x0 in let n := Z.of_nat (List.length S) in
+  (forall h, In h S -> small_v D (vsub (mvec (fst h) (vsub x x0)) (vsub x x0))) ->
+  (1 < List.length S)%nat -> snapped D G off x x0 = vscale n x ->
+  generator_site D G off x =
+  let '(pos0, ops0, m0) := expand_exact D G off x0 in Some (GSite D x off (map (rep_of D off x) ops0) ops0 m0 S).
+Proof. exact snap_keeps_invariant_site. Qed.
+Print Assumptions C02_snap_keeps_invariant_site.
+
+(* ---- ExpandAsymmetricUnit.__init__ = one GeneratorSite per core position ---- *)
+Theorem C02_expand_asym_exact_sites : forall D G off sites, IsGroup G -> 0 < D -> (12 | D) ->
+  (forall y, In y sites -> separated D G off y) ->
+  expand_asym D G off sites =
+  Some (Asym (map (fun y => snd (expand_exact D G off y)) sites)
+             (map (fun y => (D, fst (fst (expand_exact D G off y)))) sites)).
+Proof. exact expand_asym_exact_sites. Qed.
+Print Assumptions C02_expand_asym_exact_sites.
+
+(* ---- "within tolerance" in metric terms: if every coordinate of x differs from x0 by at most tau, rotations have
+   entries in {-1,0,1} (C03's entries_ok), the images of x0 are pairwise equal or at least M apart in periodic box
+   distance, 6 tau <= eps and M - 6 tau > 2e-5, then within_tol and between_far hold (triangle inequality on the
+   torus), so the theorems above apply ---- *)
+Theorem C02_near_from_metric : forall D G off x x0 tau M, 0 < D -> (forall o, In o G -> entries_ok o = true) ->
+  vnorm_le tau (vsub x x0) -> 6 * tau * eps_eq_den <= eps_eq_num * D ->
+  (forall g h, In g G -> In h G -> img D g off x0 <> img D h off x0 -> M <= boxdist D (img D g off x0) (img D h off x0)) ->
+  2 * D < 100000 * (M - 6 * tau) ->
+  within_tol D G off x x0 /\ between_far D G off x x0.
+Proof. exact near_from_metric. Qed.
+Print Assumptions C02_near_from_metric.
